@@ -20,6 +20,7 @@ KINDS = ["int", "list", "array", "boolarray", "boollist", "rlmask", "cmpmask", "
 FLOOR_TAGS = ["k:" + k for k in KINDS] + ["step:+1", "step:+k", "step:-1", "step:-k", "bounds:oob", "bounds:in", "result:empty", "mask:allfalse", "mask:alltrue", "int:negative",
                                           "kind:b", "kind:i", "kind:u", "kind:f", "index:readonly", "step:huge", "windows:narrow-dtype", "windows:len-exceeds-dtype"]
 FLOOR_MONITORS = ["c15:compare", "c15:canonical", "inv:rla", "c15:arguments-unchanged"]
+FP_STRICT = True       # a floating-point event inside the library that the dense computation does not have is a violation (shard.FpMonitor)
 N_RANDOM = {"quick": 24000, "thorough": 300000}
 
 
